@@ -557,6 +557,58 @@ func C16_KeyValue() {
 	}
 }
 
+var _ = reg("C16_KeyValueChained", C16_KeyValueChained)
+
+// C16_KeyValueChained: ids of .keyvalue() applied to generated triples and
+// to what is reached through them: equal within an object, distinct across
+// objects, stable over repeated executions.
+func C16_KeyValueChained() {
+	paths := []string{"$.keyvalue().keyvalue()", "$[*].keyvalue().keyvalue()", "$.keyvalue().value.keyvalue()", "$v.keyvalue().keyvalue()"}
+	src := paths[nd.Choice(len(paths))]
+	leaf := nd.Spec{Kinds: nd.KFloat | nd.KObject, Depth: 1, Width: 1, Keys: []string{"a"}}
+	obj := map[string]any{"a": nd.JSON(leaf)}
+	if nd.Choice(2) == 1 {
+		obj["b"] = nd.JSON(leaf)
+	}
+	var doc any = obj
+	if contains(src, "[*]") {
+		doc = []any{obj, map[string]any{"a": nd.JSON(leaf)}}
+	}
+	p := parse(src)
+	o := exec.WithVars(exec.Vars{"v": obj})
+	r1, err1 := p.Query(bg, doc, o)
+	r2, err2 := p.Query(bg, doc, o)
+	tag := "C16/keyvalue/chained"
+	if contains(src, ".value.keyvalue()") {
+		tag += " [id-relative-to-generated-object]"
+	}
+	nd.Assert(errClass(err1) == errClass(err2) && len(r1) == len(r2), tag+"/runs-differ")
+	if err1 != nil || err2 != nil || len(r1) != len(r2) {
+		return
+	}
+	for k := range r1 {
+		t1, ok1 := r1[k].(map[string]any)
+		t2, ok2 := r2[k].(map[string]any)
+		nd.Assert(ok1 && ok2 && isKeyValueTriple(t1), tag+"/triple-shape")
+		if !ok1 || !ok2 {
+			return
+		}
+		i1, _ := t1["id"].(int64)
+		i2, _ := t2["id"].(int64)
+		nd.Assert(i1 == i2, tag+"/ids-stable")
+	}
+	// ids of triples generated from different objects differ: consecutive
+	// results with the keys of one generated triple (id, key, value) share an
+	// id, and the next group has another one
+	if !contains(src, ".value.") && len(r1) >= 6 {
+		a, _ := r1[0].(map[string]any)["id"].(int64)
+		b, _ := r1[3].(map[string]any)["id"].(int64)
+		a2, _ := r1[2].(map[string]any)["id"].(int64)
+		nd.Assert(a == a2, tag+"/ids-equal-within-object")
+		nd.Assert(a != b, tag+"/ids-distinct-across-objects")
+	}
+}
+
 // C16_StringRoundTrip: .string() output converts back to an equal value
 // with the matching method: booleans, and int64 within |v| < 10^4 plus the
 // int64 boundaries.
